@@ -390,6 +390,14 @@ pub unsafe extern "C" fn write(fd: c_int, buf: *const c_void, n: usize) -> isize
     let Some(p) = tracked_fd(fd) else {
         return libc::syscall(libc::SYS_write, fd, buf, n) as isize;
     };
+    if TL_STALL.try_with(|c| c.replace(false)).unwrap_or(false) {
+        // a slow disk: this write takes until the harness says so (10 s at most)
+        STALL_REACHED.store(true, Ordering::SeqCst);
+        let t0 = mono_ns();
+        while !STALL_RELEASE.load(Ordering::SeqCst) && mono_ns() - t0 < 10_000_000_000 {
+            std::thread::sleep(std::time::Duration::from_micros(100));
+        }
+    }
     let mut n2 = n;
     match due_now() {
         Some(FaultKind::Errno(e)) => {
@@ -584,6 +592,27 @@ pub unsafe extern "C" fn mmap(a: *mut c_void, l: usize, p: c_int, f: c_int, fd: 
 #[no_mangle]
 pub unsafe extern "C" fn mmap64(a: *mut c_void, l: usize, p: c_int, f: c_int, fd: c_int, o: i64) -> *mut c_void {
     do_mmap(a, l, p, f, fd, o)
+}
+
+// ---------------------------------------------------------------------------------------------
+// a write that takes as long as the harness wants (the calling thread keeps whatever lock it holds)
+
+thread_local! {
+    static TL_STALL: Cell<bool> = const { Cell::new(false) };
+}
+static STALL_REACHED: AtomicBool = AtomicBool::new(false);
+static STALL_RELEASE: AtomicBool = AtomicBool::new(false);
+/// The next write of this thread to a store file stalls until `stall_release`.
+pub fn stall_next_write_on_this_thread() {
+    STALL_REACHED.store(false, Ordering::SeqCst);
+    STALL_RELEASE.store(false, Ordering::SeqCst);
+    TL_STALL.with(|c| c.set(true));
+}
+pub fn stall_reached() -> bool {
+    STALL_REACHED.load(Ordering::SeqCst)
+}
+pub fn stall_release() {
+    STALL_RELEASE.store(true, Ordering::SeqCst);
 }
 
 // ---------------------------------------------------------------------------------------------
